@@ -39,6 +39,8 @@ var match6Chains = [][]PlugConf{
 // chains whose answer is a function of the message alone (for the inner-equality oracle)
 var match6Stateless = map[int]bool{0: true, 1: true, 4: true}
 
+var supported6 = map[byte]bool{1: true, 3: true, 4: true, 5: true, 6: true, 8: true, 11: true}
+
 func (match6Engine) Gen(rng *rand.Rand, tier string, i int) any {
 	n := 1200
 	if tier == "thorough" {
@@ -125,6 +127,9 @@ func (match6Engine) Run(ctx *fw.Ctx, cs any) {
 				inner := pkt.Msg6(byte(typ), xid, opts)
 				plain := addReq(inner, -1)
 				depth := rng.Intn(5)
+				if supported6[byte(typ)] && rng.Intn(3) == 0 {
+					depth = []int{5, 7, 8, 9, 10, 12, 16, 31, 32, 33}[rng.Intn(10)] // around and beyond the relay hop-count limit
+				}
 				if depth > 0 {
 					msg := inner
 					for d := 0; d < depth; d++ {
